@@ -101,7 +101,9 @@ fn load_package(
     }
 
     for path in read_gom_sources(package_dir)? {
-        if entry_path.is_some_and(|entry| entry == path) {
+        // The entry file lives in `package_dir`: it is recognised by its file name, however the
+        // path to it was spelled (`main.gom`, `./main.gom`, an absolute path).
+        if entry_path.is_some_and(|entry| entry.file_name() == path.file_name()) {
             continue;
         }
         let src = fs::read_to_string(&path)
